@@ -6,22 +6,24 @@
    normalisations, default or caller-supplied (rho, theta) are "another family".  [is0] is the
    bool cast of the mask.  [solve] stands for np.linalg.pinv + einsum with the contract
      sound: an answer solves the normal equations [NE] of min |y - sum_i c_i B_i|^2, and
-     total: an independent family gets an answer (pinv always returns).
-   (Over a field such a solver exists - the Gram matrix of an independent family is invertible -
-   but that is not proved here; over R the pair is the trusted contract of numpy's pinv.)
+     total: an independent family (k >= 0 vectors) gets an answer (pinv always returns).
+   Over R the pair is the trusted contract of numpy's pinv.  Such a solver exists: the executed
+   solver [q_solve] (Gauss elimination with pivot search on the rationals, answer validated inside
+   the model) is PROVED sound (C12_solver_sound) and total (C12_solver_total: the Gram matrix of an
+   independent family has a trivial kernel, a trivial kernel survives every elimination step and
+   forbids an all-zero pivot column, back substitution solves every row), so the statements about
+   the executed instance (the C12_executed theorems) carry no hypothesis on the solver at all.
    [indep k N B]: the k masked modes, sampled on the N pixels, are linearly independent.
    [basis_mat mask modes nrm crd i p] = pixel p (row-major) of zernike(mask, modes[i], nrm, crd).
    [scatter n modes cs] = the coefficient vector handed to zernike_compose: cs_i at position
    modes_i - 1 (Noll index modes_i), length n.
-   The executed solver [q_solve] is proved sound (C12_solver_sound); that it is total is observed on
-   every executed case, not proved: the statements about the executed instance are [_partial]
-   ("if the call returns"). *)
-From LV Require Import Model.ZernikeFit Proofs.ZernikeFitP Lib.LsqR Lib.Cis.
+   *)
+From LV Require Import Model.ZernikeFit Proofs.ZernikeFitP Lib.LsqR Lib.Cis Lib.GaussTotal.
 
 Notation solver_sound S solve :=
   (forall k N B y (c : list S), solve k N B y = Ok c -> Z.of_nat (length c) = k /\ NE k N B y (nthZ c)).
 Notation solver_total S solve :=
-  (forall k N (B : Z -> Z -> S) (y : Z -> S), indep k N B -> exists c : list S, solve k N B y = Ok c).
+  (forall k N (B : Z -> Z -> S) (y : Z -> S), 0 <= k -> indep k N B -> exists c : list S, solve k N B y = Ok c).
 
 (* (a) independence => the normal equations have at most one solution *)
 Theorem C12_lsq_unique :
@@ -162,35 +164,55 @@ Theorem C12_scalars : (is_ring RS /\ formally_real RS) /\ (is_ring QS /\ formall
 Proof. exact (conj (conj RS_ring RS_formally_real) (conj QS_ring QS_formally_real)). Qed.
 Print Assumptions C12_scalars.
 
-(* the executed model itself (rationals, validated Gauss solver): no hypothesis on the solver is
-   left, but the statements are conditional on the calls returning - totality of the Gauss solver
-   on independent families is not proved *)
-Theorem C12_executed_fit_compose_id_partial :
+(* (e') ... and total: Gauss elimination never meets an all-zero pivot column on the Gram matrix of an
+   independent family, and its answer passes the validation *)
+Theorem C12_solver_total :
+  forall (k N : Z) (B : Z -> Z -> QS) (y : Z -> QS),
+  0 <= k -> indep k N B -> exists c : list QS, q_solve k N B y = Ok c.
+Proof. exact q_solve_total. Qed.
+Print Assumptions C12_solver_total.
+
+(* the executed model itself (rationals, validated Gauss solver): no hypothesis on the solver is left *)
+Theorem C12_executed_fit_compose_id :
   forall (Crd : Type) (is0 : QS -> bool) (zpoly : bool -> option Crd -> Z -> Z -> Z -> QS)
-         (mask : arr QS) (n : Z) (modes : list Z) (cs c : list QS) (normalize : bool) (crd : option Crd),
+         (mask : arr QS) (n : Z) (modes : list Z) (cs : list QS) (normalize : bool) (crd : option Crd),
   0 <= n -> (forall i, 0 <= i < Z.of_nat (length modes) -> 1 <= nthmode modes i <= n) ->
   length cs = length modes ->
   indep (Z.of_nat (length modes)) (nr mask * nc mask) (basis_mat is0 zpoly mask modes normalize crd) ->
   zernike_fit is0 zpoly q_solve (zernike_compose is0 zpoly mask (scatter n modes cs) normalize crd)
-              mask modes normalize crd = Ok c ->
-  c = cs.
-Proof. intros Crd is0 zpoly mask n modes cs c nrm crd.
-  exact (fit_compose_id QS QS_ring QS_formally_real Crd is0 zpoly q_solve q_solve_sound mask n modes cs c nrm crd). Qed.
-Print Assumptions C12_executed_fit_compose_id_partial.
+              mask modes normalize crd = Ok cs.
+Proof. intros Crd is0 zpoly mask n modes cs nrm crd.
+  exact (fit_compose_id_total QS QS_ring QS_formally_real Crd is0 zpoly q_solve q_solve_sound q_solve_total
+                              mask n modes cs nrm crd). Qed.
+Print Assumptions C12_executed_fit_compose_id.
 
-Theorem C12_executed_remove_projection_partial :
+Theorem C12_executed_remove_is_projection :
   forall (Crd : Type) (is0 : QS -> bool) (zpoly : bool -> option Crd -> Z -> Z -> Z -> QS)
-         (opd mask res : arr QS) (modes : list Z) (crd : option Crd),
+         (opd mask : arr QS) (modes : list Z) (crd : option Crd),
+  modes_ok modes = true -> nr opd = nr mask -> nc opd = nc mask ->
   indep (Z.of_nat (length modes)) (nr mask * nc mask) (basis_mat is0 zpoly mask modes true crd) ->
-  zernike_remove is0 zpoly q_solve opd mask modes crd = Ok res ->
-  (forall c', zernike_fit is0 zpoly q_solve res mask modes true crd = Ok c' ->
-              forall i, 0 <= i < Z.of_nat (length modes) -> nthZ c' i = k0) /\
-  (forall res', zernike_remove is0 zpoly q_solve res mask modes crd = Ok res' ->
-                nr res' = nr res /\ nc res' = nc res /\ forall r c, get res' r c = get res r c).
-Proof. intros Crd is0 zpoly opd mask res modes crd Hi Hr. split.
-  - intros c'. exact (remove_fit_zero QS QS_ring QS_formally_real Crd is0 zpoly q_solve q_solve_sound opd mask modes crd res c' Hi Hr).
-  - intros res'. exact (remove_idempotent QS QS_ring QS_formally_real Crd is0 zpoly q_solve q_solve_sound opd mask modes crd res res' Hi Hr). Qed.
-Print Assumptions C12_executed_remove_projection_partial.
+  exists res, zernike_remove is0 zpoly q_solve opd mask modes crd = Ok res /\
+    (exists c', zernike_fit is0 zpoly q_solve res mask modes true crd = Ok c' /\ length c' = length modes /\
+                forall i, 0 <= i < Z.of_nat (length modes) -> nthZ c' i = k0) /\
+    (exists res', zernike_remove is0 zpoly q_solve res mask modes crd = Ok res' /\
+                  nr res' = nr res /\ nc res' = nc res /\ forall r c, get res' r c = get res r c).
+Proof. intros Crd is0 zpoly opd mask modes crd.
+  exact (remove_is_projection QS QS_ring QS_formally_real Crd is0 zpoly q_solve q_solve_sound q_solve_total
+                              opd mask modes crd). Qed.
+Print Assumptions C12_executed_remove_is_projection.
+
+Theorem C12_executed_remove_compose_zero :
+  forall (Crd : Type) (is0 : QS -> bool) (zpoly : bool -> option Crd -> Z -> Z -> Z -> QS)
+         (mask : arr QS) (n : Z) (modes : list Z) (cs : list QS) (crd : option Crd),
+  0 <= n -> (forall i, 0 <= i < Z.of_nat (length modes) -> 1 <= nthmode modes i <= n) ->
+  length cs = length modes ->
+  indep (Z.of_nat (length modes)) (nr mask * nc mask) (basis_mat is0 zpoly mask modes true crd) ->
+  exists res, zernike_remove is0 zpoly q_solve (zernike_compose is0 zpoly mask (scatter n modes cs) true crd) mask modes crd = Ok res /\
+              forall r c, get res r c = k0.
+Proof. intros Crd is0 zpoly mask n modes cs crd.
+  exact (remove_compose_zero_total QS QS_ring QS_formally_real Crd is0 zpoly q_solve q_solve_sound q_solve_total
+                                   mask n modes cs crd). Qed.
+Print Assumptions C12_executed_remove_compose_zero.
 
 (* ---- non-vacuity: a concrete 3-mode instance on a 2x2 mask, modes requested as [3; 1; 2] ----
    family: mode 1 = 1, mode 2 = column index, mode 3 = row index (independent on the 4 pixels);
@@ -237,3 +259,15 @@ Proof.
   assert (E0 : d 0 = Q2Qc 0) by (rewrite <- H2, E1; ring).
   assert (i = 0 \/ i = 1 \/ i = 2) as [-> | [-> | ->]] by lia; assumption.
 Qed.
+
+(* the full-strength statement about the executed model applied to this instance: its hypotheses are
+   satisfied by the concrete family above, and it yields the value vm_compute found *)
+Example C12_nonvacuous_total :
+  zernike_fit ex_is0 ex_zpoly q_solve (zernike_compose ex_is0 ex_zpoly ex_mask (scatter 3 ex_modes ex_cs) true None)
+              ex_mask ex_modes true None = Ok ex_cs.
+Proof. apply C12_executed_fit_compose_id; [lia | | reflexivity | exact (proj1 C12_nonvacuous)].
+  intros i Hi. cbn [length ex_modes Z.of_nat Pos.of_succ_nat Pos.succ] in Hi.
+  assert (i = 0 \/ i = 1 \/ i = 2) as [-> | [-> | ->]] by lia.
+  - change (nthmode ex_modes 0) with 3. lia.
+  - change (nthmode ex_modes 1) with 1. lia.
+  - change (nthmode ex_modes 2) with 2. lia. Qed.
